@@ -140,43 +140,22 @@ func (h *c01Hist) observe(nd *wNode) {
 	}
 	if nd != nil && !nd.byz && !h.isByzID(nd.id.ReplicaID) {
 		if n0 := h.seenCom[nd.id]; n0 < len(nd.commits) {
-			remaining := nd.commits[n0:]
+			committed := nd.commits[n0:]
 			h.seenCom[nd.id] = len(nd.commits)
-			emitChunk := func(h1 uint64, chunk []*hotstuff.Block) {
-				var obs []string
-				for _, b := range chunk {
-					obs = append(obs, fmt.Sprint(h.id(b.Hash())))
-				}
-				h.commits++
-				h.emit(fmt.Sprintf("%sCommit %d %d [%s]", h.pfx(), nd.id.ReplicaID, h1, strings.Join(obs, "; ")), fmt.Sprintf("replica %v commits [%s] while processing a block whose QC certifies #%d", nd.id, strings.Join(obs, " "), h1))
-			}
-			// CommitEvents are handled after the handler that produced them returned, possibly
-			// after further proposals were processed in the same stimulus: attribute each run of
-			// commits to the voted block whose commit rule targets its last block.
+			// CommitEvents are handled after the handler that produced them returned, possibly after
+			// further proposals were processed in the same stimulus. The model gets the QC blocks of
+			// the blocks voted in this stimulus, in order, and all blocks committed in it; it decides
+			// which of those proposals made the commit rule fire.
+			var cands, obs []string
 			for _, vb := range votedBlocks {
-				b := w.blocks[vb]
-				c1, ok1 := w.blocks[b.QuorumCert().BlockHash()]
-				if !ok1 {
-					continue
-				}
-				target, ok2 := w.blocks[c1.QuorumCert().BlockHash()]
-				if ok2 && !h.fast {
-					target, ok2 = w.blocks[target.QuorumCert().BlockHash()]
-				}
-				if !ok2 {
-					continue
-				}
-				for i, cb := range remaining {
-					if cb.Hash() == target.Hash() {
-						emitChunk(h.id(c1.Hash()), remaining[:i+1])
-						remaining = remaining[i+1:]
-						break
-					}
-				}
+				cands = append(cands, fmt.Sprint(h.id(w.blocks[vb].QuorumCert().BlockHash())))
 			}
-			if len(remaining) > 0 {
-				emitChunk(999999, remaining) // commits that no vote of this stimulus explains
+			for _, b := range committed {
+				obs = append(obs, fmt.Sprint(h.id(b.Hash())))
 			}
+			h.commits++
+			h.emit(fmt.Sprintf("%sCommits %d [%s] [%s]", h.pfx(), nd.id.ReplicaID, strings.Join(cands, "; "), strings.Join(obs, "; ")),
+				fmt.Sprintf("replica %v commits [%s] while processing blocks whose QCs certify [%s]", nd.id, strings.Join(obs, " "), strings.Join(cands, " ")))
 		}
 	}
 }
